@@ -9,6 +9,7 @@ import PhyVerif.Model.C11e
 import PhyVerif.Spec.C11e
 import PhyVerif.Lemmas.C11e
 import PhyVerif.Lemmas.C11i
+import PhyVerif.Lemmas.C11k
 /-!
 # C11 — merging probes conserves every spike and renumbers ids disjointly
 Only property theorems + non-vacuity examples; proofs in `Lemmas/C11.lean`.
@@ -197,6 +198,14 @@ theorem merge_ok_contents (fs : FS) (subdirs : List String) (out : String) (fs' 
     ∃ I, Loaded fs subdirs I ∧ InDomain subdirs I ∧
       ((∀ n, fs.read (out, n) = none) → ∀ name, fs'.read (out, name) = expectedOut subdirs I name) :=
   Lemmas.merge_ok fs subdirs out fs' reg' h hout
+
+/-- Conversely, probe directories in that domain are merged without any exception: the merger's own
+assertions (merge.py:50 equal lengths, merge.py:161 "largest merged cluster id + 1 = size of the probe table" —
+which is `clusterProbes_length`) can never fire on them. With `merge_ok_contents`: among the file systems whose
+output directory is not a probe directory, the merge returns EXACTLY on the loadable inputs of `InDomain`. -/
+theorem merge_returns_iff (fs : FS) (subdirs : List String) (out : String) (hout : out ∉ subdirs) :
+    (merge fs subdirs out).2 = none ↔ ∃ I, Loaded fs subdirs I ∧ InDomain subdirs I :=
+  Lemmas.merge_returns_iff fs subdirs out hout
 
 /-- A probe without spikes (or with exactly one) makes the merge raise — the model of the `ValueError`s of
 `np.max` (merge.py:147) and of `np.concatenate` on a squeezed one-element array (merge.py:30) — and by
